@@ -125,7 +125,7 @@ def main():
     bld = vbuild.build("plain")
     cases = make_cases(tr)
     F, tot = run_cases(PROP, bld, cases, script_fn, check_fn, batch_size=20)
-    if tot.get("logged", 0) == 0 or tot.get("dropped", 0) == 0 or tot.get("mode:hidden", 0) == 0:
+    if (tot.get("logged", 0) == 0 or tot.get("dropped", 0) == 0 or tot.get("mode:hidden", 0) == 0) and F.n_unlisted() == 0:
         raise Harness("observed too little: %s" % tot)
     rc = F.report()
     write_evidence(PROP, "exploration", tr, dict(
